@@ -520,6 +520,18 @@ func (e *Engine) verify(key string, c *Contract) *Unit {
 				if strings.HasPrefix(hn, "P$") || strings.HasPrefix(hn, "BX$") {
 					continue // boxed locals / interface boxes are private to the function
 				}
+				if ig := c.Flags["frame_ignore"]; ig != "" {
+					skip := false
+					for _, sub := range strings.Fields(ig) {
+						if strings.Contains(hn, sub) {
+							skip = true
+						}
+					}
+					if skip {
+						u.note("assumptions", "frame of heap "+hn+" not checked in "+u.name+" (declared scratch storage)")
+						continue
+					}
+				}
 				whole := false
 				var excl []Term
 				var wins []modTarget
